@@ -22,13 +22,23 @@ of structures (size and parse), enum / flag member values (named and anonymous),
 load() in one text / one call per definition / split texts, loadfile(), the legacy parser (restricted domain), LF / CRLF, comments and
 blanks after the body, compiled / interpreted, packed / aligned, either endianness.  Every value is compared with the C value computed
 in the harness, with what the evaluator gives the same text on a cstruct whose constants were set through the API, and with the model.
+
+Identifiers bound to every VALUE CLASS (kinds "valueclass-context" / "valueclass-loaded" / "valueclass-fields", harness/v10_c10.py, own
+PRNG stream): the bindings are not plain ints but what the library itself puts there - cstruct integer instances of every width and alias,
+uleb128 / ileb128 values, enum members and non-member enum values, FLAG values (IntFlag subclasses; declared bits drawn at random,
+undeclared bits set), pointers, bit-field values, Python bools, members of anonymous enums / flags in cs.consts - reaching the evaluator
+through the context dict, cs.consts set through the API, constants defined by loaded text (#define / enum member / array dimension over
+anonymous members; load() whole / per definition, loadfile(), LF / CRLF) and the field context of a parsed structure (typed earlier
+fields; T(buf) / reads / read / cs.read from bytes / bytearray / memoryview / BytesIO / real file; compiled x interpreted, endianness
+spellings < > ! @ =, packed / aligned, nested in an outer structure), with one-object evaluation histories.  Expressions are total trees
+heavy in unary ~ / -, | ^ & with negated literals, shifts, / %; the oracle is the C value on the integers the bindings stand for.
 """
 from __future__ import annotations
 
 import itertools
 import random
 
-from .. import common, v9_c10
+from .. import common, v9_c10, v10_c10
 from ..common import A, Case, Result, mkrng, parse_sexp, run_driver, sx
 
 BIN = {
@@ -426,6 +436,14 @@ def run(env) -> Result:
                 "per definition / split, loadfile(), legacy parser (restricted), LF / CRLF, trailing comments, compiled x align x endianness; "
                 "each constant, expression value, structure size + parse and enum member vs the C value computed in the harness, vs the "
                 "evaluator on a cstruct with API-set constants, and vs the Lean model's evaluator. "
+                "(valueclass, harness/v10_c10.py) identifiers bound to values of the library's classes instead of plain ints - cstruct ints of every "
+                "width / alias, uleb128 / ileb128, enum members and non-member values, flag values (random declared bits, undeclared bits set), "
+                "pointers, bit-field values, bools, anonymous enum / flag members - through the context dict, API-set cs.consts, constants from "
+                "loaded text (#define, enum member values, array dimensions over anonymous members; load whole / per definition / loadfile) and "
+                "the field context of parsed structures (typed earlier fields; call / reads / read / cs.read from bytes / bytearray / memoryview "
+                "/ BytesIO / file; compiled x align x endianness spellings, nested); total expression trees heavy in ~, unary -, | ^ & with "
+                "negative operands, shifts, / %; histories of 2-4 (thorough: 2-6) evaluations on one object; each value vs the C value on the "
+                "integers the bindings stand for, vs a fresh object, and vs the Lean model's evaluator. "
                 "distinct = by rendered text + bindings; non-trivial = at least one operator")
     real = Real()
     findings = env["findings"]
@@ -520,6 +538,8 @@ def run(env) -> Result:
             res.sample({"text": text, "context": ctx1, "constants": consts, "result": list(r1)}, 6)
     # constants defined through the definition parser and everything that resolves them afterwards (harness/v9_c10.py)
     v9_c10.run(env, res, mkrng(env["seed"], "c10:v9-defconst"))
+    # identifiers bound to values of every value class, through every way a binding reaches the evaluator (harness/v10_c10.py)
+    v10_c10.run(env, res, mkrng(env["seed"], "c10:v10-valueclass"))
     # a disagreement is first of all a lead for the failing-input search: re-examine each against the property oracle
     # (already done above for tree cases); malformed cases have no prescribed value, they stay correspondence-only.
     return res
@@ -597,6 +617,8 @@ def replay(body) -> int:
     c = body["case"]
     if c.get("kind") == "defconst":
         return v9_c10.replay(body)
+    if c.get("kind") == v10_c10.REPLAY_KIND:
+        return v10_c10.replay(body)
     real = Real()
     if c.get("kind") == "history":
         steps = [{"ctx": h["context"], "consts": h["constants"]} for h in c["history"]]
